@@ -688,7 +688,7 @@ fn main() {
     }
     // (commits, max parents, both parent orders of merges?, layout)
     let plans: Vec<(usize, usize, bool, Layout)> = ctx.pick(
-        vec![(5, 3, true, Layout::Aligned(vec![0, 61, 63])), (6, 2, false, Layout::Packed(vec![58]))],
+        vec![(5, 3, true, Layout::Aligned(vec![0, 61])), (6, 2, false, Layout::Packed(vec![58]))],
         vec![
             (5, 4, true, Layout::Aligned(vec![0, 59, 60, 61, 62, 63])),
             (6, 3, true, Layout::Aligned(vec![0, 62])),
